@@ -163,6 +163,9 @@ impl Reporter {
             }
         } else {
             c.n_violations += 1;
+            if std::env::var("VERIF_DUMP").is_ok() {
+                eprintln!("DUMP {} {} {}", clause, detail, witness["observed"]);
+            }
             if c.violations.len() < 5 {
                 c.violations.push(Violation {
                     clause: clause.to_string(),
